@@ -127,8 +127,6 @@ pub fn col_name(i: usize) -> String {
     format!("c{i}")
 }
 
-pub const TABLE: &str = "t";
-
 #[derive(Clone, Copy, Debug, PartialEq, Eq, Serialize, Deserialize)]
 pub enum Cmp {
     Eq,
